@@ -39,6 +39,16 @@ def run_harness(ctx, prop):
     """Builds and runs h10 for `prop`; returns dict(ok_build, ran, summary, failures, cases_dir, out)."""
     res = {"ok_build": False, "ran": False, "summary": {}, "failures": [], "out": ""}
     ok_build, out = vlib.cargo_build(ctx, PKG)
+    # the harness workspace globs its members: while another engineer's package is half-written cargo
+    # cannot load the workspace at all - that says nothing about h10 or /repo; wait and retry
+    import time
+    tries = 0
+    while (not ok_build and tries < 12 and "failed to load manifest for workspace member" in out
+           and "/harness/%s`" % PKG not in out):
+        tries += 1
+        ctx.log("cargo workspace not loadable (another member is incomplete), retry %d" % tries)
+        time.sleep(15)
+        ok_build, out = vlib.cargo_build(ctx, PKG)
     res["ok_build"] = ok_build
     res["out"] = out
     cases = os.path.join(ctx.out, "cases")
